@@ -434,3 +434,294 @@ def assembly(level="1.5", pols=("HH", "HV"), scans=(None,), with_mp=True, use_ca
         return {"reproduced": bool(bad), "detail": bad[:6]}
 
     return with_product(run, level=level, n=3, p=2, pols=pols, scans=scans, leader_kw={"with_mp": with_mp}, pid=pid)
+
+
+# ------------------------------------------------------------------------------------------------ further witness replays
+
+
+def _special_samples(level, n, p, rng):
+    if level == "1.1":
+        words = rng.integers(0, 2**32, size=(n, p, 2), dtype=np.uint64).astype(np.uint32)
+        special = [0x7FC00000, 0x7F800000, 0xFF800000, 0x80000000, 0x00000000, 0x7FC00001, 0x00000001, 0x7F7FFFFF, 0xFFC12345]
+        flat = words.reshape(-1)
+        for i, w in enumerate(special * 2):
+            flat[(i * 3) % flat.size] = w
+        return flat.reshape(n, p, 2).view("<f4").reshape(n, p, 2).copy().view("<c8").reshape(n, p)
+    d = rng.integers(0, 65536, size=(n, p)).astype("uint16")
+    flat = d.reshape(-1)
+    for i, w in enumerate([0, 65535, 32768, 32767, 1, 256, 255]):
+        flat[(i * 2) % flat.size] = w
+    return d
+
+
+def _bits(a):
+    a = np.ascontiguousarray(a)
+    if a.dtype.kind == "c":
+        return a.astype("<c8").view("<u4")
+    return a.astype("<u2").view("<u2")
+
+
+def pixels(level="1.5", n=5, p=3, rpc=2, protocol="file", seed=0):
+    """bit-exact comparison of the loaded image with the samples written into the file (incl. NaN payloads, inf, -0.0, 0, 65535)"""
+    import fsspec
+
+    import ceos_alos2
+    from vlib import synth
+
+    rng = np.random.default_rng(seed)
+    name = f"IMG-HH-{synth.SCENE}-{synth.PID[level]}"
+    data = _special_samples(level, n, p, rng)
+    root = tempfile.mkdtemp(prefix="vpix_")
+    os.environ["XDG_CACHE_HOME"] = os.path.join(root, "_xdg")
+    try:
+        if protocol == "memory":
+            fs = fsspec.filesystem("memory")
+            base = f"/vpix_{os.path.basename(root)}"
+            synth.product(lambda nm, b: fs.pipe_file(f"{base}/{nm}", b), level, n=n, p=p, pols=("HH",), datas={name: data})
+            url = f"memory://{base}"
+        else:
+            base = os.path.join(root, "prod")
+            synth.product(synth.dir_writer(base), level, n=n, p=p, pols=("HH",), datas={name: data})
+            url = base if protocol == "file" else f"file://{base}"
+        tree = ceos_alos2.open_alos2(url, backend_options={"use_cache": False, "records_per_chunk": rpc})
+        var = tree["imagery/HH/data"]
+        bad = []
+        if tuple(var.shape) != (n, p):
+            bad.append(f"declared shape {tuple(var.shape)} != header ({n}, {p})")
+        vals = var.values
+        if vals.shape != (n, p) or not np.array_equal(_bits(vals), _bits(data)):
+            diff = np.argwhere(_bits(vals).reshape(n, p, -1) != _bits(data).reshape(n, p, -1))[:2].tolist() if vals.shape == (n, p) else "shape"
+            bad.append(f"loaded samples differ bit-wise from the file at {diff}")
+        return {"reproduced": bool(bad), "detail": bad, "level": level, "n": n, "p": p, "rpc": rpc, "protocol": protocol}
+    except Exception as e:  # noqa: BLE001
+        return {"reproduced": True, "detail": [f"{type(e).__name__}: {str(e)[:200]}"], "level": level, "n": n, "p": p, "rpc": rpc, "protocol": protocol}
+    finally:
+        shutil.rmtree(root, ignore_errors=True)
+        if protocol == "memory":
+            try:
+                fs.rm(base, recursive=True)
+            except Exception:  # noqa: BLE001
+                pass
+
+
+def rpc_pair(level="1.5", rpc1=1, rpc2=7, n=5, p=3):
+    """same product, two records_per_chunk: identical trees; preferred chunk size = min(rpc, lines)"""
+    import ceos_alos2
+
+    def run(root, datas):
+        a = ceos_alos2.open_alos2(root, backend_options={"use_cache": False, "records_per_chunk": rpc1})
+        b = ceos_alos2.open_alos2(root, backend_options={"use_cache": False, "records_per_chunk": rpc2})
+        diffs = tree_diff(a, b)
+        for t, rpc in ((a, rpc1), (b, rpc2)):
+            for pol in ("HH", "HV"):
+                enc = t[f"imagery/{pol}/data"].encoding
+                if enc.get("preferred_chunksizes") != {"rows": min(rpc, n), "columns": p} and enc.get("preferred_chunks") != {"rows": min(rpc, n), "columns": p}:
+                    diffs.append(f"rpc={rpc}: preferred chunk sizes {enc}")
+        return {"reproduced": bool(diffs), "detail": diffs[:5], "rpc": (rpc1, rpc2)}
+
+    return with_product(run, level=level, n=n, p=p)
+
+
+_LOG = []
+
+
+def _register_logfs():
+    import fsspec
+    from fsspec.implementations.local import LocalFileSystem
+
+    class LoggedFile:
+        def __init__(self, f, path):
+            self.f, self.path = f, path
+
+        def seek(self, o, whence=0):
+            _LOG.append(("seek", os.path.basename(self.path), o))
+            return self.f.seek(o, whence)
+
+        def read(self, n=-1):
+            pos = self.f.tell()
+            out = self.f.read(n)
+            _LOG.append(("read", os.path.basename(self.path), pos, n, len(out)))
+            return out
+
+        def __enter__(self):
+            return self
+
+        def __exit__(self, *a):
+            self.f.close()
+            return False
+
+        def __getattr__(self, k):
+            return getattr(self.f, k)
+
+    class LogFS(LocalFileSystem):
+        protocol = "logfs"
+
+        def _open(self, path, mode="rb", **kw):
+            _LOG.append(("open", os.path.basename(path)))
+            return LoggedFile(super()._open(path, mode=mode, **kw), path)
+
+        def cat_file(self, path, start=None, end=None, **kw):
+            _LOG.append(("cat", os.path.basename(self._strip_protocol(path))))
+            return super().cat_file(path, start=start, end=end, **kw)
+
+        def cat(self, path, *a, **kw):
+            _LOG.append(("cat", os.path.basename(self._strip_protocol(path)) if isinstance(path, str) else "many"))
+            return super().cat(path, *a, **kw)
+
+    fsspec.register_implementation("logfs", LogFS, clobber=True)
+
+
+def io_log(level="1.5", n=7, p=3, rpc=3, rows=slice(2, 6)):
+    """request log of an instrumented filesystem: open pass and one selection load"""
+    import math
+
+    import ceos_alos2
+
+    _register_logfs()
+    H = 544 if level == "1.1" else 192
+    L = H + p * (8 if level == "1.1" else 2)
+
+    def run(root, datas):
+        name = next(iter(datas))
+        bad = []
+        del _LOG[:]
+        tree = ceos_alos2.open_alos2("logfs://" + root, backend_options={"use_cache": False, "records_per_chunk": rpc})
+        reads = [e for e in _LOG if e[0] == "read" and e[1] == name]
+        if not reads or (reads[0][2], reads[0][3]) != (0, 720):
+            bad.append(f"open: first request {reads[:1]} is not the 720-byte descriptor")
+        if len(reads) - 1 > math.ceil(n / rpc):
+            bad.append(f"open: {len(reads) - 1} requests after the descriptor, at most {math.ceil(n / rpc)} allowed")
+        pos = 720
+        for e in reads[1:]:
+            if e[2] != pos:
+                bad.append(f"open: request at {e[2]} does not continue at {pos}")
+            pos = e[2] + e[4]
+        if pos != 720 + n * L:
+            bad.append(f"open: line records read up to {pos}, file has {720 + n * L}")
+        del _LOG[:]
+        tree["imagery/HH/data"].isel(rows=rows).values
+        sel = list(range(n)[rows]) if isinstance(rows, slice) else list(rows)
+        rp = min(rpc, n)
+        groups = sorted({r // rp for r in sel})
+        other = [e for e in _LOG if e[0] in ("open", "cat") and e[1] != name]
+        if other:
+            bad.append(f"load touched other files: {other[:3]}")
+        reads = [e for e in _LOG if e[0] == "read"]
+        if len(reads) > len(groups):
+            bad.append(f"load: {len(reads)} reads for {len(groups)} touched groups")
+        for e in reads:
+            g = (e[2] - 720) // (rp * L)
+            lo, hi = 720 + g * rp * L, 720 + min((g + 1) * rp, n) * L
+            if g not in groups or e[2] < lo or e[2] + e[3] > hi or e[2] + e[3] > 720 + n * L:
+                bad.append(f"load: read {e[2]}+{e[3]} is not confined to a touched group [{lo}, {hi})")
+        return {"reproduced": bool(bad), "detail": bad[:5], "rpc": rpc, "rows": str(rows)}
+
+    return with_product(run, level=level, n=n, p=p, pols=("HH", "HV"))
+
+
+def same_instant(year=2020, doy=366, ms=86399999):
+    """one instant written into every time-bearing field of a product"""
+    import datetime
+
+    import ceos_alos2
+
+    base = datetime.datetime(year, 1, 1) + datetime.timedelta(days=doy - 1, milliseconds=ms)
+    want = np.datetime64(base, "ns")
+
+    def run(root, datas):
+        tree = ceos_alos2.open_alos2(root, backend_options={"use_cache": False})
+        got = {
+            "image line (ms)": np.datetime64(tree["imagery/HH"]["sensor_acquisition_date"].values[0], "ns"),
+            "platform position first point": np.datetime64(tree["metadata/platform_position"].attrs["datetime_of_first_point"], "ns"),
+            "scene centre": np.datetime64(tree["metadata/dataset_summary"].attrs["scene_center_time"], "ns"),
+            "attitude point": np.datetime64(tree["metadata/attitude/attitude"]["time"].values[0], "ns"),
+        }
+        bad = {k: str(v) for k, v in got.items() if v != want}
+        return {"reproduced": bool(bad), "detail": bad, "instant": str(want)}
+
+    line = {"sensor_acquisition_date": {"year": year, "day_of_year": doy, "milliseconds": ms}}
+    ov = {"attitude": {"data_points": [{"time": {"day_of_year": doy, "millisecond_of_day": ms}}]},
+          "platform_position": {"datetime_of_first_point": {"date": f"{base.year:4d}{base.month:4d}{base.day:4d}", "day_of_year": doy, "seconds_of_day": ms / 1000.0}},
+          "dataset_summary": {"scene_center_time": base.strftime("%Y%m%d%H%M%S") + "%03d" % (ms % 1000)}}
+    return with_product(run, level="1.5", n=2, p=3, pols=("HH",), image_kw={"line": line}, leader_kw={"n_att": 1, "overrides": ov})
+
+
+def fail_stop(level="1.5", n=4, p=3):
+    """every truncation of the image at record boundaries and +-1 byte, truncated leader / volume directory, every single missing file"""
+    import ceos_alos2
+
+    H = 544 if level == "1.1" else 192
+    L = H + p * (8 if level == "1.1" else 2)
+    out = []
+
+    def attempt(root, what, rpc):
+        try:
+            tree = ceos_alos2.open_alos2(root, backend_options={"use_cache": False, "records_per_chunk": rpc})
+            shape = tuple(tree["imagery/HH/data"].shape)
+            return f"{what} (rpc={rpc}): opened, image shape {shape}"
+        except OSError:
+            return None
+        except Exception as e:  # noqa: BLE001
+            return None if "missing" not in what else f"{what}: raised {type(e).__name__}, not an OSError"
+
+    def run(root, datas):
+        name = next(iter(datas))
+        files = sorted(os.listdir(root))
+        orig = {f: open(os.path.join(root, f), "rb").read() for f in files}
+        cuts = sorted({c for k in range(n + 1) for c in (720 + k * L - 1, 720 + k * L, 720 + k * L + 1)} | {0, 1, 719, 720 + L // 2}) 
+        for cut in cuts:
+            if cut < 0 or cut >= len(orig[name]):
+                continue
+            open(os.path.join(root, name), "wb").write(orig[name][:cut])
+            for rpc in (1, n - 1, n, n + 3):
+                r = attempt(root, f"image cut at {cut}", rpc)
+                if r:
+                    out.append(r)
+        open(os.path.join(root, name), "wb").write(orig[name])
+        for f in files:
+            if f.startswith(("LED-", "VOL-")):
+                for cut in (0, 1, 359, 360, 720, len(orig[f]) // 2, len(orig[f]) - 1):
+                    open(os.path.join(root, f), "wb").write(orig[f][:cut])
+                    r = attempt(root, f"{f[:3]} cut at {cut}", 2)
+                    if r:
+                        out.append(r)
+                open(os.path.join(root, f), "wb").write(orig[f])
+        for f in files:
+            if f.startswith("TRL-"):
+                continue
+            os.remove(os.path.join(root, f))
+            r = attempt(root, f"missing {f[:7]}", 2)
+            if r:
+                out.append(r)
+            open(os.path.join(root, f), "wb").write(orig[f])
+        return {"reproduced": bool(out), "detail": out[:6]}
+
+    return with_product(run, level=level, n=n, p=p, pols=("HH",))
+
+
+def framing(n_att=3, n_ch=2, with_mp=True, fac_len=(100, 120, 140, 160), att_len=16384):
+    """records behind variable-length / optional records are decoded from their own bytes"""
+    from ceos_alos2.sar_leader.io import parse_data
+    from vlib import synth
+
+    try:
+        raw = synth.leader(n_att=n_att, n_ch=n_ch, with_mp=with_mp, fac_len=fac_len, att_len=att_len)
+        d = parse_data(raw)
+    except Exception as e:  # noqa: BLE001
+        return {"reproduced": True, "detail": [f"{type(e).__name__}: {str(e)[:150]}"], "params": (n_att, n_ch, with_mp, fac_len, att_len)}
+    bad = []
+    seqs = {"dataset_summary": 2, "platform_position": 4, "attitude": 5, "radiometric_data": 6, "data_quality_summary": 7, "facility_related_data_1": 8,
+            "facility_related_data_2": 9, "facility_related_data_3": 10, "facility_related_data_4": 11, "facility_related_data_5": 12}
+    for rec, seq in seqs.items():
+        if d[rec]["preamble"]["record_sequence_number"] != seq:
+            bad.append(f"{rec}: preamble sequence number {d[rec]['preamble']['record_sequence_number']} (its own is {seq})")
+    if d["radiometric_data"]["calibration_factor"][0] != -83.0:
+        bad.append(f"calibration factor {d['radiometric_data']['calibration_factor']}")
+    if len(d["attitude"]["data_points"]) != n_att or len(d["map_projection"]) != (1 if with_mp else 0):
+        bad.append("record multiplicities")
+    if d["data_quality_summary"]["number_of_channels"] != n_ch:
+        bad.append("channel count")
+    for i, L in enumerate(fac_len):
+        if d[f"facility_related_data_{i + 1}"]["preamble"]["record_length"] != L:
+            bad.append(f"facility {i + 1} length")
+    return {"reproduced": bool(bad), "detail": bad[:4], "params": (n_att, n_ch, with_mp, fac_len, att_len)}
